@@ -454,6 +454,9 @@ def pointOut (xy : Nat × Nat) : String :=
 
 def gOut (sat : Bool) (out : String) : String := s!"sat={boolStr sat} out={out}"
 
+/-- when the system is unsatisfied the values carried are not part of the observable -/
+def gOut2 (sat : Bool) (out : String) : String := if sat then gOut true out else "sat=0"
+
 /-- an element-valued gadget result; with `post=enc` also the encoding the compress gadget derives from it -/
 def finOut (args : List String) (xy : Nat × Nat) : String :=
   pointOut xy ++ (if kvGet args "post" == some "enc" then ";enc=" ++ feHex fqP (R1cs.compress xy.1 xy.2 none).2 else "")
@@ -511,6 +514,22 @@ def execGadget (op : String) (args : List String) : String :=
       | some a, some bits =>
         gOut (C17.onCurve a.1 a.2) (finOut args (R1cs.scalarMulLe (bits.toList.map (· == '1')) (0, 1) a))
       | _, _ => "bad-elem"
+  | "lazy2" => match fq "s1", fq "s2" with
+    | some s1, some s2 =>
+      -- both operands are decoded in circuit, whenever that happens: the verdict includes both decodings
+      let (sat1, x1, y1) := R1cs.decompress s1 none
+      let (sat2, x2, y2) := R1cs.decompress s2 none
+      let a := (x1, y1)
+      let b := (x2, y2)
+      match (kvGet args "bop").getD "" with
+      | "iseq" => gOut2 (sat1 && sat2) (boolStr (R1cs.isEq a b))
+      | "enforce_eq" => gOut2 (sat1 && sat2 && R1cs.isEq a b) "-"
+      | "enforce_neq" => gOut2 (sat1 && sat2 && !R1cs.isEq a b) "-"
+      | "cenforce_eq0" => gOut2 (sat1 && sat2) "-"
+      | "add" => gOut2 (sat1 && sat2) (pointOut (Ext.addAffine a b))
+      | "select" => gOut2 (sat1 && sat2) (pointOut a)
+      | _ => "bad-op"
+    | _, _ => "bad-op"
   | "lazy" =>
     let ops := ((kvGet args "ops").getD "").splitOn "," |>.filter (· != "")
     let st0 : Option R1cs.Lazy :=
